@@ -51,7 +51,8 @@ def cases(tier, seed):
                            starts=("interior", "face", "vertex"), condmax=1e3)
         yield {"kind": "switch", "problem": ps, "maxcor": int(rng.integers(1, 7)), "maxiter": int(rng.integers(6, 14)),
                "switch_at": int(rng.integers(0, 7)), "variant": gen.pick(rng, ["rescale", "reg", "indefinite", "indefinite", "indefinite"]),
-               "vseed": int(rng.integers(0, 2**31 - 1)), "strength": float(rng.uniform(0.3, 3.0))}
+               "vseed": int(rng.integers(0, 2**31 - 1)), "strength": float(rng.uniform(0.3, 3.0)),
+               "eps_SY": float(gen.pick(rng, [2.2e-16, 2.2e-16, 1e-3, 1e-2, 0.1]))}
 
 
 # ---------------------------------------------------------------------------
@@ -141,11 +142,34 @@ def run_identity(spec, out):
     out.nontrivial = True
 
 
+def switch_trace(spec, extra_cfg=None):
+    """One objective-switching run (used by C14 to vary logging on exactly this workload)."""
+    P0 = gen.make_problem(spec["problem"])
+    fB, gB, desc = make_fB(P0, spec)
+    S = Switched(P0, fB, gB)
+    calls = {"n": 0}
+
+    def ufd(x, f0, f0_old, grad, X, G):
+        j = calls["n"]
+        calls["n"] += 1
+        if j == spec["switch_at"] and not S.on:
+            S.on = True
+            Gn = deque(gB(np.array(p, copy=True)) for p in X)
+            xo = np.array(X[-1], copy=True) if len(X) else np.array(x, copy=True)
+            return fB(np.array(x, copy=True)), fB(xo), gB(np.array(x, copy=True)), Gn
+        return f0, f0_old, grad, G
+
+    cfg = dict(jac="callable", maxcor=spec["maxcor"], maxls=20, maxiter=spec["maxiter"], ftol=0.0, gtol=1e-10, maxfun=10000,
+               eps_SY=float(spec.get("eps_SY", 2.2e-16)))
+    cfg.update(extra_cfg or {})
+    return probes.run_min(S, cfg, hooks={"ufd": ufd})
+
+
 def run_switch(spec, out):
     P0 = gen.make_problem(spec["problem"])
     fB, gB, desc = make_fB(P0, spec)
     S = Switched(P0, fB, gB)
-    eps_sy = 2.2e-16
+    eps_sy = float(spec.get("eps_SY", 2.2e-16))
     info = {"calls": 0, "switched_at_call": None, "nX_at_switch": None, "seen_points": []}
 
     def ufd(x, f0, f0_old, grad, X, G):
@@ -160,9 +184,10 @@ def run_switch(spec, out):
             return fB(np.array(x, copy=True)), fB(xo), gB(np.array(x, copy=True)), Gn
         return f0, f0_old, grad, G
 
-    cfg = dict(jac="callable", maxcor=spec["maxcor"], maxls=20, maxiter=spec["maxiter"], ftol=0.0, gtol=1e-10, cb="never", maxfun=10000)
+    cfg = dict(jac="callable", maxcor=spec["maxcor"], maxls=20, maxiter=spec["maxiter"], ftol=0.0, gtol=1e-10, cb="never", maxfun=10000,
+               eps_SY=eps_sy)
     tr = probes.run_min(S, cfg, hooks={"ufd": ufd})
-    name = f"switch {P0.spec['family']} n={P0.n} maxcor={spec['maxcor']} {desc} at call {spec['switch_at']}"
+    name = f"switch {P0.spec['family']} n={P0.n} maxcor={spec['maxcor']} eps_SY={eps_sy:g} {desc} at call {spec['switch_at']}"
     tags = dict(kind="switch", variant=spec["variant"])
     out.count("switch_runs")
     if tr.exc is not None:
